@@ -37,6 +37,21 @@ UNITS = {
                              for f in ['put', 'capturing_put', 'replace_or_create_node', 'get', 'get_', 'get_mut', 'get_mut_', 'peek', 'peek_', 'peek_mut', 'peek_mut_',
                                        'contains', 'remove', 'attach', 'detach', 'len', 'cap', 'is_empty']],
                   assumptions=SHIM_ASSUMPTIONS),
+    'K-CB': dict(engine='kani', files=['harness_raw_cb.rs'], support_files=['harness_raw.rs'],
+                 module={'harness_raw_cb.rs': 'lru::raw::verif_hooks::harness_cb'},
+                 n=dict(quick=2, thorough=3), bound='list length <= {N}, capacity <= {N}',
+                 timeout=dict(quick=900, thorough=3600),
+                 functions=[dict(function='RawLRU::' + f, file='src/lru/raw.rs', line=0, props=['C15'])
+                            for f in ['cb', 'capturing_put', 'remove', 'remove_lru', 'purge', 'resize', 'with_on_evict_cb_and_hasher']],
+                 assumptions=SHIM_ASSUMPTIONS + ['with_on_evict_cb (RandomState hasher) differs from with_on_evict_cb_and_hasher only in the hasher argument; only the latter is executed under Kani']),
+    'K-LIFE': dict(engine='kani', files=['harness_raw_life.rs'], support_files=['harness_raw.rs'],
+                   module={'harness_raw_life.rs': 'lru::raw::verif_hooks::harness_life'},
+                   n=dict(quick=2, thorough=3), bound='list length <= {N}, capacity <= {N}; 16 tracked object ids',
+                   timeout=dict(quick=900, thorough=3600),
+                   functions=[dict(function='RawLRU::' + f, file='src/lru/raw.rs', line=0, props=['C04', 'C16', 'C17', 'C02', 'C03'])
+                              for f in ['clone', 'drop', 'capturing_put', 'replace_or_create_node', 'remove', 'remove_lru', 'remove_lru_in', 'purge', 'resize',
+                                        'get', 'peek', 'peek_mut', 'contains (borrowed Q)', 'KeyWrapper::from_ref', 'KeyRef::borrow']],
+                   assumptions=SHIM_ASSUMPTIONS),
     'K-ITER': dict(engine='kani', files=['harness_raw_iter.rs'], support_files=['harness_raw.rs'],
                    module={'harness_raw_iter.rs': 'lru::raw::verif_hooks::harness_iter'},
                    n=dict(quick=2, thorough=3), bound='list length <= {N}+1, schedule of next/next_back of length {N}+3 (= len()+2 at full length)',
